@@ -727,6 +727,30 @@ func (e *verifEnv) ResetVolatile() {
 	e.State.totpLocalTateLimitMutex.Unlock()
 }
 
+// WatchSignerReady mirrors main(): one goroutine receives from SignerIsReady.
+// Returned func reports (values received by "main", values left in the channel).
+func (e *verifEnv) WatchSignerReady() func() (int, int) {
+	var mu sync.Mutex
+	got := 0
+	go func() {
+		for v := range e.State.SignerIsReady {
+			mu.Lock()
+			if v {
+				got++
+			}
+			mu.Unlock()
+			if got == 1 {
+				return // main() reads exactly once
+			}
+		}
+	}()
+	return func() (int, int) {
+		mu.Lock()
+		defer mu.Unlock()
+		return got, len(e.State.SignerIsReady)
+	}
+}
+
 // CA certificates exactly as main() adds them to the TLS client pool.
 func (e *verifEnv) ClientCAPool() *x509.CertPool {
 	pool := x509.NewCertPool()
